@@ -53,7 +53,16 @@ func splitErrKind(s string) string {
 }
 
 func showURI(u *stun.URI) string {
-	return fmt.Sprintf("scheme=%s host=%s port=%d proto=%s", u.Scheme.String(), showHex([]byte(u.Host)), u.Port, u.Proto.String())
+	// the exported helpers must agree with the parsed value: IsSecure = stuns/turns, and the scheme / transport names
+	// parse back to themselves
+	extra := ""
+	if u.IsSecure() != (u.Scheme == stun.SchemeTypeSTUNS || u.Scheme == stun.SchemeTypeTURNS) {
+		extra += " IsSecure-disagrees-with-scheme"
+	}
+	if stun.NewSchemeType(u.Scheme.String()) != u.Scheme || stun.NewProtoType(u.Proto.String()) != u.Proto {
+		extra += " scheme-or-proto-name-does-not-parse-back"
+	}
+	return fmt.Sprintf("scheme=%s host=%s port=%d proto=%s", u.Scheme.String(), showHex([]byte(u.Host)), u.Port, u.Proto.String()) + extra
 }
 
 func (e *executor) uriOp(t []string) (string, bool) {
